@@ -263,6 +263,17 @@ void Interpreter::sync_impl_definitions_from_parser(RecursiveParser *parser) {
                           << (void *)impl_def.impl_node << std::endl;
             }
 
+            // impl static variables, as handle_impl_declaration creates them
+            // for an impl block of the running file
+            for (const auto &sv : impl_def.impl_node->impl_static_variables) {
+                if (!sv || sv->node_type != ASTNodeType::AST_VAR_DECL)
+                    continue;
+                enter_impl_context(impl_def.interface_name,
+                                   impl_def.struct_name);
+                create_impl_static_variable(sv->name, sv.get());
+                exit_impl_context();
+            }
+
             // methods/constructors/destructorも更新されたノードから取得
             impl_def.methods.clear();
             impl_def.constructors.clear();
